@@ -407,10 +407,10 @@ class Replacements(object):
         self.len = z3.Function('repl_len', S, z3.IntSort())
 
     def _pyvc_contains(self, key):
-        return Sym(self.has(sym.lift(key)))
+        return Sym(self.has(z3.simplify(sym.lift(key))))
 
     def __getitem__(self, key):
-        k = sym.lift(key)
+        k = z3.simplify(sym.lift(key))
         p = sym.cur()
         if not p.branch(self.has(k)):
             raise KeyError(key)
@@ -432,7 +432,7 @@ class _OuterLoop(LoopSpec):
         self.ksym = None
 
     def key(self, it, k):
-        return z3.Concat(z3.StringVal("b_"), sym.int2str(z3.simplify(k)))
+        return z3.simplify(z3.Concat(z3.StringVal("b_"), sym.int2str(z3.simplify(k))))
 
     def E(self, it, fr, k, po):
         c = it.cfg
@@ -454,6 +454,7 @@ class _OuterLoop(LoopSpec):
         it.path.assume(self.po == z3.And(ke > 0, c['R'].replaced(self.key(it, ke - 1))))
         self.g = it.path.fresh_bool('nothing_replaced_so_far').e
         it.path.assume(z3.Implies(ke == 0, self.g))
+        it.path.assume(z3.Implies(self.g, z3.Not(self.po)))              # part of the invariant (proved again below)
         if it.path.branch(self.g):
             self.bc = [(prev.arr, c['P'], c['o'](ke) - c['P'])]          # g_k : the iterations so far copied prev[PRE : o_k]
         else:
@@ -462,8 +463,9 @@ class _OuterLoop(LoopSpec):
             self.bc = [(bc.arr, z3.IntVal(0), bc.n)]
         fr.locals[self.acc_name].segs = self.out0 + self.bc
         it.cfg['cur_block'] = ke
-        for f in c['block_facts']:                                       # instances of the precondition at sub-block k
+        for f in c['block_facts']:                                       # instances of the precondition at sub-blocks k, k-1
             it.path.assume(f(ke))
+            it.path.assume(f(ke - 1))
 
     def inv(self, it, fr, k):
         c = it.cfg
@@ -488,7 +490,9 @@ class _OuterLoop(LoopSpec):
             ident = z3.BoolVal(True)                                     # something has been replaced on this path
         else:
             ident = z3.Implies(g1, out.equals(self.out0 + [(prev.arr, c['P'], c['o'](ke) - c['P'])]))
-        return z3.And(idx == c['o'](ke), flag == rep, step, ident)
+        if it.cfg.get('debug'):
+            it.path.prove('dbg:idx', idx == c['o'](ke)); it.path.prove('dbg:flag', flag == rep); it.path.prove('dbg:step', step); it.path.prove('dbg:ident', ident)
+        return z3.And(idx == c['o'](ke), flag == rep, step, ident, z3.Implies(g1, z3.Not(flag)))
 
     def exit_hints(self, it, fr):
         it.cfg['outer_spec'] = self          # the ghosts BC_n, g_n of the exit state are what the postcondition talks about
@@ -564,7 +568,7 @@ class RebuildAnyNumber(Case):
             H.assume(z3.ForAll([kq], f(kq)))
         H.assume(z3.ForAll([kq, j], seg(kq, j)))
         H.assume(z3.And(f_len(z3.IntVal(0)), f_off(z3.IntVal(0))))
-        cfgd = dict(pre_noprint=pre_noprint, P=P, subs=[fam_first(fam)], o=o, c=cfun, R=R, block_facts=(f_len, f_off, f_split), cur_block=None)
+        cfgd = dict(debug=bool(__import__('os').environ.get('C14P_DEBUG')), pre_noprint=pre_noprint, P=P, subs=[fam_first(fam)], o=o, c=cfun, R=R, block_facts=(f_len, f_off, f_split), cur_block=None)
         cfgd['seg_facts'] = _CurrentBlockFacts(cfgd, seg)
         H.it.cfg = cfgd
         block = types.SimpleNamespace(block_name="b", instructions=prev)
@@ -605,4 +609,4 @@ class _CurrentBlockFacts(object):
 
 
 def cases(tier='quick'):
-    return [RebuildUnbounded(n) for n in ((1, 2) if tier == "quick" else (1, 2, 3))], {}    # RebuildAnyNumber: work in progress, not registered
+    return [RebuildUnbounded(n) for n in ((1, 2) if tier == "quick" else (1, 2, 3))] + [RebuildAnyNumber()], {}
